@@ -85,6 +85,7 @@ def make_backend_class():
             self.sync_in_submit = sync_in_submit
             self.hooks = []            # callables(event) for controllers
             self.aborts = 0
+            self.during_abort = None   # optional callable(backend) run once at the start of the next abort_everything
             self.parallel = None
             self.errors = []
 
@@ -147,6 +148,11 @@ def make_backend_class():
             return fut.res
 
         def abort_everything(self, ensure_ready=True):
+            hook = self.during_abort
+            if hook is not None:
+                # a graceful abort: a running batch may finish (and fire its callback) while the abort is in progress
+                self.during_abort = None
+                hook(self)
             with self.cv:
                 self.aborts += 1
                 for f in self.pending:
